@@ -140,6 +140,24 @@ class DeribitAdapter:
         for cls in ("part", "all", "over", "0", "dust"):
             out.append(Op(f"{n}.deposit[{cls}]", lambda c, cls=cls: m.deposit(amount(cls, wallet())), cls in DEVIANT, f"{n}.deposit"))
             out.append(Op(f"{n}.withdraw[{cls}]", lambda c, cls=cls: m.withdraw(amount(cls, m.balance)), cls in DEVIANT, f"{n}.withdraw"))
+
+        def premium_and_fee(ins, n):
+            lv = m.market_status.data.loc[ins].asks
+            left, prem = Decimal(n), Decimal(0)
+            for p, a in lv:
+                take = min(left, Decimal(str(a)))
+                prem += take * Decimal(str(p))
+                left -= take
+                if left <= 0:
+                    break
+            return prem, min(Decimal("0.0003") * n, Decimal("0.125") * prem)
+
+        def to_premium(c):
+            # leave exactly the premium of two C1 contracts plus half their fee in the option account: the purchase is payable without the fee only
+            prem, fee = premium_and_fee("C1", 2)
+            return m.withdraw(m.balance - (prem + fee / 2))
+        if "C1" in m.market_status.data.index and m.balance > 1:
+            out.append(Op(f"{n}.withdraw[to-premium]", to_premium, False, f"{n}.withdraw"))
         names = ["C1", "P1"]
         for ins in names + ["NOPE"]:
             for amt in ("1", "2", "6", "100", "0.4"):
